@@ -229,6 +229,22 @@ PROPS = {
         "level_note": "Partial: that a blocked fd/session/conn read returns when the transport is closed or the peer goes away, pty line discipline and "
                       "TCP are runtime behaviour: measured on every case (all returned within milliseconds), not proved.",
     },
+    "C17": {
+        "n": {"quick": 1, "thorough": 1},
+        "cone": ["Bytes", "Regex", "Generated", "Channel", "Network", "NetworkAbs", "NetworkLemmas", "Platform", "PlatformLemmas", "Replay"],
+        "rx": True,
+        "rule": "exhaustive: every advertised platform name and every embedded definition file (documentation example excluded) is loaded with "
+                "platform.NewPlatform / NewPlatformVariant; for network definitions the driver runs against a device built from the definition "
+                "itself (modes = levels, prompts = canonical prompts derived by the translator from each level's pattern and re-checked by "
+                "the regex engine, commands = the definition's escalate/de-escalate commands): Open runs the on-open steps, every ordered pair "
+                "of levels is acquired in turn (6 pairs per case), Close runs the on-close steps; the logged schedule is replayed by the model of "
+                "the network driver instantiated with the GENERATED level records. Non-trivial = every case.",
+        "level_text": "Theorems C17_names and C17_wf hold by kernel computation over the regenerated definitions (finite exhaustive domain: all "
+                      "advertised names, all embedded files); C17_paths lifts well-formedness to the unbounded C04 tree theorems for every "
+                      "platform; C17_variant states the merge. Tied to platform/*.go and the YAML by loading and driving every definition.",
+        "level_note": "Exhaustive over the embedded definitions (exhaustive=true). Authenticated escalation edges are driven with a device that grants "
+                      "without asking (the dialogue itself is C12's). User options layered on platform options: C19.",
+    },
     "C18": {
         "n": {"quick": 250, "thorough": 6000},
         "cone": ["Bytes", "Regex", "Generated", "Channel", "Replay"],
